@@ -119,8 +119,7 @@ def main():
                  (run.seed, 300 if thorough else 60, 40 if thorough else 30))]
         jobs = {"mc-cov": ("LiveQueryMC", "LiveQueryMC.cfg", {"coverage": True, "timeout": 900, "consts": "CONSTANT MaxPackets = 2"}),
                 "mc": ("LiveQueryMC", "LiveQueryMC.cfg", {"timeout": 1500, "consts": "CONSTANT MaxPackets = %d" % (4 if thorough else 3)}),
-                "mc-neg": ("LiveQueryMC", "LiveQueryMCNeg.cfg", {"timeout": 900, "consts": "CONSTANT MaxPackets = 3"}),
-                "gen-pos2": _gen_job("pos2")}
+                "mc-neg": ("LiveQueryMC", "LiveQueryMCNeg.cfg", {"timeout": 900, "consts": "CONSTANT MaxPackets = 3"})}
         for gs, extra in sets:
             jobs["gen-" + gs] = _gen_job(gs, extra)
         res = _tlc_jobs(sc, jobs)
@@ -192,14 +191,14 @@ def main():
             run.cov["failing_steps_by_class"] = dict(classes)
 
         # ---- negative control: one expected live row corrupted per behaviour must be rejected
-        g = _gen_ok(run, res["gen-pos2"], "pos2")
-        nouts, nsumm, ncrashes = _replay(vh, g.infos[0], g.traces, negative=True)
+        negset = res["gen-" + sets[0][0]].traces[:40]
+        nouts, nsumm, ncrashes = _replay(vh, universe, negset, negative=True)
         vlib.require(not ncrashes, "negative control crashed")
         rejected = {o["id"] for o in nouts if o.get("ok") is False and o["desc"].get("cls") == "live-rows-differ"}
-        vlib.require(len(rejected) == len(g.traces),
+        vlib.require(len(rejected) == len(negset),
                      "negative control: %d of %d behaviours with a corrupted expected live row were accepted" %
-                     (len(g.traces) - len(rejected), len(g.traces)))
-        run.cov["negative_control"] = "%d/%d behaviours with one corrupted expected live row rejected" % (len(rejected), len(g.traces))
+                     (len(negset) - len(rejected), len(negset)))
+        run.cov["negative_control"] = "%d/%d behaviours with one corrupted expected live row rejected" % (len(rejected), len(negset))
 
     run.cov["rule"] = ("distinct = distinct (live query, in-memory flows, database) triples compared; F covers all sequences of length "
                        "%d over {3 packets + 1 on the second interface, write-out, 2 live queries} with a live query, one live query per "
